@@ -1427,6 +1427,14 @@ def value_method(it, base, attr, node):
                 it.st.assume(n >= 1)
                 return list_from_lambda(it, TStr, n, lambda i: V(TStr, (pf(base.t, sep.t, i),)))
             return bb(f)
+        if attr == "splitlines":
+            def f():
+                nf = it.eng.ufunc("str_nlines", zs, z3.IntSort())
+                pf = it.eng.ufunc("str_line", zs, z3.IntSort(), zs)
+                n = nf(base.t)
+                it.st.assume(n >= 0)
+                return list_from_lambda(it, TStr, n, lambda i: V(TStr, (pf(base.t, i),)))
+            return bb(f)
         if attr == "join":
             def f(xs):
                 if isinstance(xs, V) and xs.sort is TStr:
@@ -1435,8 +1443,9 @@ def value_method(it, base, attr, node):
                     raise OutOfSubset("sep.join(string)")
                 lst = as_list(it, xs)
                 nlit = z3.simplify(lst.terms[0])
-                if _const_key(base) == "" and z3.is_int_value(nlit) and 0 <= nlit.as_long() <= 12:
-                    # "".join([a, b, c]) over a list of known small length is the concatenation a + b + c
+                if (_const_key(base) == "" or getattr(xs, "meta", None) == "display") and z3.is_int_value(nlit) and 0 <= nlit.as_long() <= 12:
+                    # sep.join([a, b, c]) over a list written as a display (or "".join over a list of known small length) is the
+                    # concatenation a + sep + b + sep + c
                     acc = mk_str("")
                     for k in range(nlit.as_long()):
                         e = V(TStr, (z3.simplify(z3.Select(lst.terms[1], k)),))
